@@ -33,15 +33,12 @@ theorem static_fold (drop : List Str) : ∀ (attrs : List Attr) (acc : List PAtt
 /-- **C07 (static attributes verbatim)**: with nothing dynamic targeting the element, the prepared
 list is exactly the static attributes as written — name, value, quote, spacing and `=` — in order,
 minus the language attributes. -/
-theorem C07_static_verbatim (q : Quirks) (attrs : List Attr) (ns : List ((Str × Str) × Tok)) (dropNs : List Str) :
-    ∃ drop, prepareAttributes q attrs [] [] ns dropNs = some (staticEntries attrs drop) := by
-  refine ⟨((attrs.zip ns).filter (fun (_, ((n, _), v)) =>
-      dropNs.contains n || (n == XMLNS_NS && dropNs.contains v.str))).map (fun (a, _) => a.name.str), ?_⟩
+theorem C07_static_verbatim (q : Quirks) (attrs : List Attr) (nsOf : Attr → Str) (ns : List ((Str × Str) × Tok)) (dropNs : List Str) :
+    prepareAttributes q attrs [] [] nsOf ns dropNs = some (staticEntries attrs (dropNames q attrs nsOf ns dropNs)) := by
   unfold prepareAttributes
   simp only [List.foldlM_nil, List.foldl_nil, Option.pure_def, Option.map_some]
   congr 1
-  have := static_fold (((attrs.zip ns).filter (fun (_, ((n, _), v)) =>
-      dropNs.contains n || (n == XMLNS_NS && dropNs.contains v.str))).map (fun (a, _) => a.name.str)) attrs [] []
+  have := static_fold (dropNames q attrs nsOf ns dropNs) attrs [] []
   simpa using this
 
 /-- Python list indexing used for `attributes[index]` -/
